@@ -424,21 +424,25 @@ fn cmd_check(args: &[String]) -> i32 {
             "distinct_nontrivial": fps.len(),
             "rule": plan.rule,
             "samples": samples,
-            "nontrivial_runs": n_nontrivial,
             "runs_per_variant_total_and_nontrivial": per_variant.iter().map(|(k, v)| (k.clone(), json!([v.0, v.1]))).collect::<BTreeMap<_, _>>(),
-            "simulated_runs_per_hour": runs_per_hour.round(),
-            "seeds_per_hour": runs_per_hour.round(),
-            "simulated_seconds_covered": (virt_ms as f64) / 1000.0,
-            "events_total": events,
             "fault_kinds_fired": faults,
             "reach_probes": probes,
-            "capped_runs": capped,
+            "run_statistics": {
+                "nontrivial_runs": n_nontrivial,
+                "runs_capped_by_event_or_wall_limit": capped,
+                "simulated_runs_per_hour": runs_per_hour.round(),
+                "seeds_per_hour": runs_per_hour.round(),
+                "simulated_seconds_covered": (virt_ms as f64) / 1000.0,
+                "events_total": events,
+                "worker_threads": jobs,
+                "cpu_seconds_in_runs": (sum_wall_ms as f64) / 1000.0,
+                "planned_runs": runs,
+                "stopped_by_time_budget": n_runs < runs,
+            },
             "violations_of_other_properties_seen_not_reported_here": other_props,
             "known_findings_hit": known_hit,
             "components_real": plan.real,
             "components_stubbed": plan.stubbed,
-            "worker_threads": jobs,
-            "cpu_seconds_in_runs": (sum_wall_ms as f64) / 1000.0,
         },
         "assumptions": plan.assumptions,
         "wall_s": wall_s,
